@@ -106,7 +106,7 @@ def run(chk):
     env = dict(os.environ, **vlib.SAN_ENV)
     p = subprocess.run([asan, '--mode', 'count', '--seed', str(chk.seed), '--tier', chk.tier], stdout=subprocess.PIPE, stderr=subprocess.DEVNULL, text=True, env=env)
     try:
-        nprefix, nsubst, nevil, nseeds = [int(x) for x in p.stdout.split()]
+        nprefix, nsubst, nevil, nseeds, ngrow = [int(x) for x in p.stdout.split()]
     except ValueError:
         raise vlib.HarnessError('c03 count failed: %r' % p.stdout)
     # ---- deterministic sweeps and crafted inputs, both build modes
@@ -122,6 +122,9 @@ def run(chk):
     chk.absorb(vlib.run_sharded(asan_small, nprefix, chk.seed, chk.tier, ['--mode', 'prefix'], tag='c03ps', stall_s=300), 'every prefix (tiny parser buffers)')
     chk.absorb(vlib.run_sharded(asan_small, 200000 if T else 8000, chk.seed + 5, chk.tier, ['--mode', 'smart'], tag='c03ms', stall_s=300, timeout=7200),
                'seeded structure-aware mutations (tiny parser buffers)')
+    # ---- valid inputs whose objects sweep across the capacity of the decoders' buffers; o5m reference table fill
+    for variant, binary in (('NDEBUG', asan), ('assertions on', asan_dbg), ('tiny parser buffers', asan_small)):
+        chk.absorb(vlib.run_sharded(binary, ngrow, chk.seed, chk.tier, ['--mode', 'grow'], tag='c03g', stall_s=300), 'buffer-growth sweep and o5m table fill (%s)' % variant)
     # ---- coverage-guided fuzzing (clang libFuzzer + ASan + UBSan), artifacts re-run one per process
     d = vlib.scratch_dir('c03fuzz')
     executed = 0
@@ -129,7 +132,7 @@ def run(chk):
     try:
         seeds_dir = os.path.join(d, 'seeds')
         os.makedirs(seeds_dir)
-        subprocess.run([asan, '--mode', 'dump', '--dir', seeds_dir, '--seed', str(chk.seed), '--tier', chk.tier], env=env, check=False)
+        subprocess.run([asan, '--mode', 'dump', '--dir', seeds_dir, '--seed', str(chk.seed), '--tier', chk.tier], env=env, check=False, stderr=subprocess.DEVNULL)
         jobs = []
         runs_per_job = 400000 if T else 12000
         copies = 2 if T else 1
@@ -179,5 +182,5 @@ def run(chk):
                        'arithmetic UBSan reports (signed overflow, shift, float cast) are recoverable and informational; bounds/null/vptr/unreachable/return and every ASan report are fatal',
                        'a clean run means no report on the executions made, not memory safety']
     return chk.finish('exploration',
-                      'deterministic sweeps in both build modes (NDEBUG / assertions on): every prefix of %d seed files (XML, osc, PBF raw/zlib/plain/history/locations-on-ways, OPL, o5m/o5c, gzip and bzip2 wrappers), single-byte substitutions {00,7f,80,ff,b+1,b-1} at every offset, %d crafted slot mutations (string lengths 0..70000 and embedded NULs in every PBF string slot, mismatching array lengths, hostile framing, structurally odd XML, OPL escapes, o5m references/lengths) each also gzip-wrapped, seeded structure-aware mutations (PBF re-framed after mutating the uncompressed blob, payload mutated then re-compressed, compressed bytes mutated); plus coverage-guided libFuzzer (ASan+UBSan) through the real Reader for 10 format/wrapper targets; every delivered buffer is traversed on exact-fit copies. distinct = enumerated inputs (by construction) + hashes of mutated inputs; fuzz executions are counted in evaluations only' % (nseeds, nevil),
-                      required_counters=['crafted_inputs', 'prefix_inputs', 'substitution_inputs', 'mutated_inputs', 'inputs_accepted', 'inputs_rejected_with_std_exception', 'items_traversed', 'strings_traversed', 'fuzz_executions'])
+                      'deterministic sweeps in both build modes (NDEBUG / assertions on): every prefix of %d seed files (XML, osc, PBF raw/zlib/plain/history/locations-on-ways, OPL, o5m/o5c, gzip and bzip2 wrappers), single-byte substitutions {00,7f,80,ff,b+1,b-1} at every offset, %d crafted slot mutations (string lengths 0..70000 and embedded NULs in every PBF string slot, mismatching array lengths, hostile framing, structurally odd XML incl. every order of child elements, OPL escapes, o5m references/lengths) each also gzip-wrapped, valid inputs whose second object is swept in element steps across the capacity of the decoder buffers (1 KiB/4 KiB/64 KiB) and ends in a long string, o5m inputs filling the 15000-entry reference table up to and past the wrap-around, seeded structure-aware mutations (PBF re-framed after mutating the uncompressed blob, payload mutated then re-compressed, compressed bytes mutated); plus coverage-guided libFuzzer (ASan+UBSan) through the real Reader for 10 format/wrapper targets; every delivered buffer is traversed on exact-fit copies. distinct = enumerated inputs (by construction) + hashes of mutated inputs; fuzz executions are counted in evaluations only' % (nseeds, nevil),
+                      required_counters=['crafted_inputs', 'prefix_inputs', 'substitution_inputs', 'mutated_inputs', 'inputs_accepted', 'inputs_rejected_with_std_exception', 'items_traversed', 'strings_traversed', 'fuzz_executions', 'buffer_growth_sweep_inputs', 'o5m_reference_table_fill_inputs'])
